@@ -19,6 +19,7 @@ L2: every message value created in open_flow / expand_flow / close_flow / claim 
 close_flow must depend on the flow's asset_history (funded amount including expansions), not only on flow_asset.amount.
 L4: in close_flow the FLOWS.remove and the refund lie on the same success paths and the refund goes to flow.flow_creator.
 L6: the creation-fee message goes to the factory's fee_collector_addr with amount create_flow_fee.amount.
+L7: in claim the stored new claimed total (claimed + reward) is the quantity a dominating `> funded amount` test rejects.
 """
 ASSUMPTIONS = [
     "cw_utils::must_pay returns the amount of the single coin of the given denom in info.funds",
@@ -303,6 +304,7 @@ def check_fee_message(ctx, model):
 
 def run(ctx):
     model = ctx.model()
+    check_claim_bound(ctx, model)
     kinds = ["NativeToken", "Token"]
     cfgs = []
     for fee in kinds:
@@ -321,3 +323,43 @@ def run(ctx):
     ctx.floor("C12-L2", "message creation sites", m, 9)
     check_close(ctx, model)
     check_fee_message(ctx, model)
+
+
+def check_claim_bound(ctx, model):
+    """L7: in claim the new claimed total that is stored into flow.claimed_amount (claimed so far + this reward) is the
+    very quantity compared against the flow's funded amount beforehand: some comparison `new total > funded` rejects, its
+    passing edge dominates the store, and the transfer amount is the reward that was added."""
+    from ..dataflow import expr_shape, norm_shape
+    p = "incentive::claim::claim"
+    v = ctx.view(p, "C12-L7")
+    if v is None:
+        return
+    stores = []
+    for b, i, s_ in v.iter_stmts():
+        F = v._named_fields(s_["lhs"]["p"])
+        if F and F[-1] == "claimed_amount" and s_["rv"]["r"] == "use":
+            stores.append((b, i, norm_shape(expr_shape(v, s_["rv"]["op"], (b, i), depth=3))))
+    if not stores:
+        ctx.missing("C12-L7", "assignment to flow.claimed_amount in claim")
+        return
+    for sb, si, X in stores:
+        is_sum = isinstance(X, tuple) and X[0] == "add"
+        pass_edges = []
+        funded = []
+        for b, c, _ in switch_conds(v):
+            if c.kind != "cmp" or c.op not in (">", "<", ">=", "<="):
+                continue
+            at = cond_at(v, c)
+            a, bb_ = norm_shape(expr_shape(v, c.a, at, depth=3)), norm_shape(expr_shape(v, c.b, at, depth=3))
+            te, fe = cmp_true_false_edges(v, b, c)
+            if a == X and c.op == ">":
+                pass_edges += fe
+                funded.append(v.origins_of_operand(c.b, at=at, taint=True))
+            elif bb_ == X and c.op == "<":
+                pass_edges += fe
+                funded.append(v.origins_of_operand(c.a, at=at, taint=True))
+        ok_funded = bool(funded) and all(any(o.kind == "call" and o.a.endswith("get_flow_asset_amount_at_epoch") or (o.proj and "asset_history" in o.proj) for o in f) for f in funded)
+        ok = is_sum and bool(pass_edges) and v.edge_dominated(sb, pass_edges) and ok_funded
+        ctx.ob("C12-L7", "%s|new-claimed-total-bounded-by-funding" % p, ok,
+               "stored claimed total is a sum: %s; a rejecting `that sum > funded amount` dominates the store: %s; bound derived from the flow's funded amount: %s"
+               % (is_sum, bool(pass_edges) and v.edge_dominated(sb, pass_edges), ok_funded), v.where(sb))
